@@ -360,6 +360,61 @@ def extract_fn(unit: str, file: str, item: str, mode: str, contracts, canary: bo
                 edits.append((toks[k].start, toks[k].end, 'slf', rw('R1')))
         info.rewrites.append('R1')
 
+    # rule R21: a `let` that shadows a parameter is renamed (Verus resolves a shadowed parameter name in `ensures`
+    # to the local at `return` points); every later use in the enclosing block refers to the new binding.
+    params = set()
+    d = 0
+    for k in range(sig_lo, sig_hi):
+        tx = toks[k]
+        if tx.kind == 'punct' and tx.text in ('(', '[', '<'):
+            d += 1
+        elif tx.kind == 'punct' and tx.text in (')', ']', '>'):
+            d -= 1
+        elif tx.kind == 'punct' and tx.text == '>>':
+            d -= 2
+        elif d == 1 and tx.kind == 'ident' and toks[k + 1].text == ':' and toks[k - 1].text in ('(', ',', 'mut'):
+            params.add(tx.text)
+    k = blo + 1
+    while k < bhi:
+        if toks[k].kind == 'ident' and toks[k].text == 'let':
+            q = k + 1
+            if toks[q].text == 'mut':
+                q += 1
+            if toks[q].kind == 'ident' and toks[q].text in params and toks[q + 1].text in ('=', ':'):
+                name = toks[q].text
+                # end of the statement: ';' at depth 0 relative to the let
+                dd = 0
+                e = q
+                while e < bhi:
+                    te = toks[e]
+                    if te.kind == 'punct' and te.text in ('(', '[', '{'):
+                        dd += 1
+                    elif te.kind == 'punct' and te.text in (')', ']', '}'):
+                        dd -= 1
+                    elif te.kind == 'punct' and te.text == ';' and dd == 0:
+                        break
+                    e += 1
+                # end of the enclosing block
+                dd = 0
+                z = e
+                while z < bhi:
+                    tz = toks[z]
+                    if tz.kind == 'punct' and tz.text in ('(', '[', '{'):
+                        dd += 1
+                    elif tz.kind == 'punct' and tz.text in (')', ']', '}'):
+                        if dd == 0:
+                            break
+                        dd -= 1
+                    z += 1
+                new_name = 'vp_%s1' % name
+                edits.append((toks[q].start, toks[q].end, new_name, rw('R21')))
+                for u in range(e, z):
+                    if toks[u].kind == 'ident' and toks[u].text == name and toks[u - 1].text != '.':
+                        # struct-field shorthand `Foo { mode }` would need `mode: vp_mode1`; not present in this codebase
+                        edits.append((toks[u].start, toks[u].end, new_name, rw('R21')))
+                info.rewrites.append('R21:%s' % name)
+        k += 1
+
     body_start_ins: List[Seg] = []
     if c and c.mutself:
         body_start_ins.append(Seg('\n        let mut slf = self;', rw('R1')))
@@ -559,10 +614,14 @@ def assemble(unit_path: str, contracts=None, canary: bool = False) -> Assembled:
                         mod_stack.pop()
                 continue
             d, rest = m.group(1), m.group(2).strip()
-            if d == 'include':
+            if d in ('include', 'include_stub'):
                 p = os.path.join(VERIF, rest)
                 includes.append(rest)
-                process(rest, open(p).read(), depth + 1)
+                txt = open(p).read()
+                if d == 'include_stub':
+                    # the same fragment with every verified body replaced by its contract-only stub
+                    txt = txt.replace('//@body ', '//@stub ')
+                process(rest, txt, depth + 1)
             elif d in ('body', 'stub', 'item', 'decl'):
                 opts = {}
                 mm = re.match(r'^(.*?)\s*::\s*(.*?)(\s+\w+=.*)?$', rest)
